@@ -166,6 +166,9 @@ def text_part(pid, tier):
     return viol, [], cov
 
 
+SCHED_ORACLE_TOO = {"C10"}
+
+
 def check_diff(pid, tier):
     t0 = time.time()
     C.prune_cache("tree-" + C.tree_hash())
@@ -177,6 +180,12 @@ def check_diff(pid, tier):
     if pid in TEXT_KINDS:
         v, k, c = text_part(pid, tier)
         viol += v; known += k; cov.update(c)
+    if pid in SCHED_ORACLE_TOO:
+        # the scheduler-level face of the property (for C10: an End hook is a job that depends on the
+        # element jobs; "never after a failed element" is the scheduler's "no job downstream of a failure")
+        v, k, c, _ = S.decide(pid, tier, ts)
+        viol += v; known += k
+        cov.update({"sched_" + kk: vv for kk, vv in c.items() if kk in ("evaluations", "oracle_failures", "traces_validated_against_impl")})
     ev = cov.get("disagreements_checked", 0) + cov.get("text_cases_checked", 0)
     cov.update({"obligations": ts["obligations"], "discharged": ts["discharged"],
                 "checker_cmd": "cd /verif/lean && lake build && lake env lean Audit.lean",
